@@ -179,15 +179,27 @@ def cases():
     special = st.one_of(gens.pts_antimeridian(), gens.pts_antimeridian(), gens.pts_polar(), gens.pts_pole_exact(), gens.pts_frame_nbhd(),
                         gens.pts_face_edge(), gens.pts_face_edge(), gens.pts_seam())
     by_loc = st.builds(lambda p, r: {"lon": p["lon"], "lat": p["lat"], "res": r}, special, gens.resolutions(2, 29))
-    return st.one_of(by_id, by_loc, by_loc)
+    by_edge = gens.edge_scaled_cases(2, 29).map(lambda c: {"lon": c["lon"], "lat": c["lat"], "res": c["res"]})
+    return st.one_of(by_id, by_loc, by_loc, by_edge, by_edge)
 
 
 def stage_hyp(ctx):
     hyp_drive(ctx, cases(), judge, 120 if ctx.tier == "quick" else 2500)
 
 
+def stage_boundary(ctx):
+    """Cells containing the places where the library's own branches flip (lib/boundary.py)."""
+    from lib import boundary
+    anc = boundary.anchors(ctx, "cell", 100 if ctx.tier == "quick" else 500) + boundary.anchors(ctx, "proj", 100 if ctx.tier == "quick" else 500)
+    if not anc:
+        ctx.col.count("boundary_stage_skipped")
+        return
+    strat = st.builds(lambda p, r: {"lon": p["lon"], "lat": p["lat"], "res": r}, boundary.anchor_points(anc), gens.resolutions(2, 29))
+    hyp_drive(ctx, strat, judge, 25 if ctx.tier == "quick" else 600)
+
+
 def plan(tier):
-    return [Stage("enum", 16, stage_enum, cost=8), Stage("hyp", 16, stage_hyp, cost=6)]
+    return [Stage("enum", 16, stage_enum, cost=8), Stage("hyp", 16, stage_hyp, cost=6), Stage("boundary", 16, stage_boundary, cost=4)]
 
 
 def replay(rec, col):
